@@ -109,8 +109,13 @@ def records(fmt, text):
         out = {}
         for i, sent in enumerate(root.xpath('//sentence')):
             sent.tail = None
-            s = etree.tostring(sent, encoding='unicode')
-            out[i + 1] = re.sub(r'\bs%d_' % i, 's#_', s)
+            # every identifier built from the sentence's position may differ (s3_1, s3_sp0, s3_ccg0, a bare s3);
+            # identifiers live in the reference attributes, token text is left alone
+            for el in sent.iter():
+                for k in ('id', 'child', 'terminal', 'root'):
+                    if el.get(k) is not None:
+                        el.set(k, re.sub(r'\bs%d(?=_|\b)' % i, 's#', el.get(k)))
+            out[i + 1] = etree.tostring(sent, encoding='unicode')
         return out
     if fmt == 'html':
         parts = re.split(r'<p>ID=(\d+):', text)
